@@ -331,6 +331,13 @@ def delete_traits(p=1, version='1.36'):
     return request
 
 
+def catalogue(method, url, body=None, version='1.36'):
+    """a write to the trait / resource class catalogue"""
+    def request(ctx, w, shape):
+        return app.call(method, url, body, version=version)
+    return request
+
+
 def put_aggregates(aggs=(2,), p=1, version='1.36', headers=None):
     def request(ctx, w, shape):
         v = tuple(int(x) for x in version.split('.'))
@@ -519,6 +526,22 @@ def shapes(tier):
             'accept': 'text/plain'}), kind='aggs', prov=1),
         S('aggs-put-1.1', put_aggregates((2,), version='1.1'), version='1.1',
           kind='aggs', prov=1),
+        # --- the catalogue of traits and resource classes
+        S('class-put-new', catalogue('PUT', '/resource_classes/CUSTOM_NEW'),
+          kind='catalogue'),
+        S('class-put-existing',
+          catalogue('PUT', '/resource_classes/CUSTOM_FOO'), kind='catalogue'),
+        S('class-post-new', catalogue('POST', '/resource_classes',
+                                      {'name': 'CUSTOM_NEW'}),
+          kind='catalogue'),
+        S('class-delete', catalogue('DELETE', '/resource_classes/CUSTOM_FOO'),
+          kind='catalogue'),
+        S('trait-put-new', catalogue('PUT', '/traits/CUSTOM_NEW'),
+          kind='catalogue'),
+        S('trait-delete-unused', catalogue('DELETE', '/traits/' + T2),
+          kind='catalogue'),
+        S('trait-delete-maybe-used', catalogue('DELETE', '/traits/' + T1),
+          kind='catalogue'),
     ]
     return out
 
